@@ -1064,6 +1064,13 @@ package dig
 //@   allocates plain
 //@   ensures[C15:a-result-is-a-single-an-object-or-a-group,C09:a-result-is-a-single-an-object-or-a-group] err == nil ==> okResult(r)
 //@   ensures[C09:a-group-option-makes-a-grouped-result] err == nil && is(r, resultGrouped) ==> as(r, resultGrouped).Group != ""
+// C10: a member is delivered once: the keys a grouped result feeds are pairwise different (finding F16: As types were not)
+//@   ensures[C10:a-grouped-result-feeds-each-group-once] err == nil && is(r, resultGrouped) ==> (forall i int :: 0 <= i && i < len(as(r, resultGrouped).As) ==> as(r, resultGrouped).As[i] != as(r, resultGrouped).Type)
+//@        && (forall i int, j int :: 0 <= i && i < j && j < len(as(r, resultGrouped).As) ==> as(r, resultGrouped).As[i] != as(r, resultGrouped).As[j])
+//@   loop range opts.As #1: invariant[C10:as-types-so-far-are-distinct] (forall j int :: 0 <= j && j < len(asTypes) ==> asTypes[j] != t) && (forall i int, j int :: 0 <= i && i < j && j < len(asTypes) ==> asTypes[i] != asTypes[j])
+//@   loop range asTypes #1: invariant[C10:not-seen-so-far] (forall k int :: 0 <= k && k < $i ==> asTypes[k] != ifaceType) && ifaceType != t && ifaceType != nil
+//@        && (cap(asTypes) == 0 || fresh(asTypes)) && (forall j int :: 0 <= j && j < len(asTypes) ==> asTypes[j] != nil && asTypes[j] != t) && (forall i int, j int :: 0 <= i && i < j && j < len(asTypes) ==> asTypes[i] != asTypes[j])
+//@        && rg.Group != "" && rg.Type == t && rg.Flatten == g.Flatten && g.Name != ""
 //@   loop range opts.As #1: invariant (cap(asTypes) == 0 || fresh(asTypes)) && (forall j int :: 0 <= j && j < len(asTypes) ==> asTypes[j] != nil) && rg.Group != "" && rg.Type == t && rg.Flatten == g.Flatten && g.Name != ""
 
 //@ func newResultObject(t, opts) (ro, err)
